@@ -27,6 +27,12 @@ AXLLIB_A = os.path.join(buildlib.LIBREPO, "aldor", "lib", "axllib", "src", "liba
 FOAMLIB_A = os.path.join(buildlib.LIBREPO, "aldor", "aldor", "lib", "libfoamlib", "libfoamlib.a")
 
 
+def ROT(g):
+    """two ordinary block kinds per generated program, by rotation: every kind is in some program of every tier"""
+    rot = [b[0] for b in progen.BLOCKS if b[2] > 0 and b[0] not in ("docs", "tokens")]
+    return (rot[(2 * g) % len(rot)], rot[(2 * g + 1) % len(rot)])
+
+
 def build_exe(binfo, scratch, name, text, q, o):
     """aldor.sim -Fc -Fmain in a fault-free world, then gcc.  Returns dir with ./prog or None."""
     w = scratch.new()
@@ -183,13 +189,13 @@ def main(argv):
             return 0
 
         ngen = 12 if tier == "quick" else 60
-        ncorp = 6 if tier == "quick" else 30
-        nsched = 14 if tier == "quick" else 30
+        ncorp = 4 if tier == "quick" else 30
+        nsched = 10 if tier == "quick" else 30
         cands = []
         for g in range(ngen):
             size = "heavy" if g % 4 != 3 else "small"
             cands.append({"name": "g%03d.as" % g, "text": progen.gen_program(vsim.Rng(seed, "c09-gen", g), size=size,
-                                                                              force=("frag",) if g % 4 == 1 else (("chain",) if g % 4 == 2 else (("bigdrop",) if g % 4 == 0 else ("sizes",))),
+                                                                              force=(("frag",) if g % 4 == 1 else (("chain",) if g % 4 == 2 else (("bigdrop",) if g % 4 == 0 else ("sizes",)))) + ROT(g),
                                                                               finale=True).encode("latin-1"),
                           "origin": "generated"})
         # one dedicated program for a known finding (raw records with a narrow field before a
@@ -217,6 +223,7 @@ def main(argv):
 
         if os.environ.get("VERIF_C09_ONLY"):	# debugging aid: restrict the workload to named programs
             cands = [c for c in cands if c["name"] in os.environ["VERIF_C09_ONLY"].split(",")]
+        if os.environ.get("VERIF_TIMING"): vsim.say("T build %.1f" % (time.time() - t0))
         # build executables
         built = vsim.pmap(lambda c: build_exe(binfo, scratch, c["name"], c["text"], c["q"], c["o"]), cands)
         progs = []
@@ -245,6 +252,7 @@ def main(argv):
                 b = run_prog(binfo, scratch, c, route, ["heapbase 31000000b000", "stackpad 4096", "clock 5000 jump 2 777"] + never)
                 out_[route] = (a, b)
             return out_
+        if os.environ.get("VERIF_TIMING"): vsim.say("T refs %.1f" % (time.time() - t0))
         allrefs = vsim.pmap(refs_of, progs)
         work = []
         unstable = []
@@ -288,9 +296,10 @@ def main(argv):
                 cases.append((wi, base_plan(rng, route) + lines, meta))
         # a wall-clock budget must thin the worlds evenly, not drop the programs that come last
         vsim.Rng(seed, "c09-order").shuffle(cases)
+        if os.environ.get("VERIF_TIMING"): vsim.say("T cases %.1f" % (time.time() - t0))
         budget = checklib.Budget(420 if tier == "quick" else 2700)
         results = []
-        B = 64
+        B = 256
         for b0 in range(0, len(cases), B):
             if budget.over():
                 break
@@ -303,6 +312,7 @@ def main(argv):
         # same up to the cap.  If that finishes, the original run was inconclusive (slow), the
         # cheaper run is judged in its place; a run that still does not finish with a cap of a
         # few hundred collections is a hang.
+        if os.environ.get("VERIF_TIMING"): vsim.say("T main-run %.1f" % (time.time() - t0))
         slow_ix = [i for i in range(done) if results[i].timeout]
         slow_attributed = 0
         for level in (10, 100):
@@ -346,6 +356,7 @@ def main(argv):
                 v = None
             verd.append(v)
 
+        if os.environ.get("VERIF_TIMING"): vsim.say("T judge %.1f" % (time.time() - t0))
         # determinism sample
         redo_ix = [i for i in range(done) if vsim.Rng(seed, "redo09", i).chance(4, 100)][:40]
         redo = vsim.pmap(lambda i: run_prog(binfo, scratch, work[cases[i][0]][0], work[cases[i][0]][1], cases[i][1]), redo_ix)
@@ -392,6 +403,7 @@ def main(argv):
                 "key": key, "source_key": binfo["key"], "other_failing_cases": len(ids) - 1})
             out.violations.append({"key": key, "cls": want, "detail": "%s on route %s under %s (%d cases)" % (c["name"], route, mplan, len(ids)), "replay": rp})
 
+        if os.environ.get("VERIF_TIMING"): vsim.say("T by-key %.1f" % (time.time() - t0))
         # ---- third route: the interactive loop with its own collection command -------------------
         # `#int gc' is the only caller of the interpreter's stack cleaning (fintFreeJunk); the same
         # generated programs run as sessions - one step per block, `#int gc' between the steps - under
@@ -450,6 +462,7 @@ def main(argv):
                 "got_tail": (r.out + r.err)[-400:].decode("latin-1", "replace"), "source_key": binfo["key"]})
             out.violations.append({"key": key, "cls": key.split(":")[1], "detail": "loop session g%d under %s (%d cases)" % (g, plan, len(loop_by[key])), "replay": rp})
 
+        if os.environ.get("VERIF_TIMING"): vsim.say("T loop-route %.1f" % (time.time() - t0))
         for c in progs:
             vsim.cleanup_world(c["exe_dir"])
         wall = time.time() - t0
